@@ -34,7 +34,12 @@ const ARG_POOL: &[&str] = &[
 /// every pair of them meets every binary function within a quick run
 const EDGE_NUMBERS: &[&str] = &[
     "-9223372036854775808", "-1", "0", "1", "9223372036854775807", "18446744073709551615", "1e308", "-0.5",
+    // zero as a negative integer token and as a negative double: representations of their own
+    "-0", "-0.0",
 ];
+
+/// values with a length, for the calls that pair one of them with numeric edges
+const SHAPES: &[&str] = &["[1, 2, 3]", "\"abc\"", "{\"a\": 1}", "[]", ".arr", ".s", "[\"a\"]", "\"\""];
 
 /// further numeric edges (every spelling of zero, the widths at which counters wrap, the
 /// edge of exactly representable integers): one edge argument in four comes from here
@@ -160,9 +165,17 @@ fn gen_illtyped_expr(rng: &mut Rng, depth: usize) -> String {
     let max = if f.max == usize::MAX { f.min + 2 } else { f.max };
     let n = rng.range(f.min, max.max(f.min));
     let mut args = Vec::new();
-    let edges_only = rng.chance(1, 3);
-    for _ in 0..n {
-        if edges_only && !(amplifier(name) || amplifier(f.name)) {
+    let mode = rng.below(6);
+    let edges_only = mode < 2;
+    // a value with a length in one position, numeric edges in the others (indices, counts)
+    let shaped = mode == 2;
+    let shape_at = rng.below(n.max(1));
+    for i in 0..n {
+        if shaped && i == shape_at && !(amplifier(name) || amplifier(f.name)) {
+            args.push((*rng.pick(SHAPES)).to_string());
+            continue;
+        }
+        if (edges_only || shaped) && !(amplifier(name) || amplifier(f.name)) {
             let pool = if rng.chance(1, 4) { EDGE_MORE } else { EDGE_NUMBERS };
             args.push((*rng.pick(pool)).to_string());
             continue;
